@@ -212,6 +212,20 @@ def bounded(tier, seed, procs):
                 b3.fail(Failure("disambiguate", f"cause={cause} filter={fname} a={[str(s) for s in A]} b={[str(s) for s in B]} why={why}",
                                 dict(kind="disamb", a=[str(s) for s in A], b=[str(s) for s in B], filter=fname), expected="exactly the clashing identifiers renamed consistently", actual=why,
                                 functions=["disambiguate_identifiers", "get_all_used_identifiers"]))
+    # argument forms: the streams given as tuples, iterators and generators give what the lists give
+    for A, B in trees.thin(list(itertools.product(small, small)), 80, seed=5):
+        for fn_name, fn in (("fuse", fuse_statement_streams_with_unique_ids), ("disambiguate", disambiguate_identifiers), ("disambiguate_and_fuse", disambiguate_and_fuse)):
+            ref = outcome.run(lambda: fn(list(A), list(B)))
+            for form, mk in (("tuple", tuple), ("iterator", iter), ("generator", lambda st: (q for q in st))):
+                for which in ("second", "both"):
+                    r = outcome.run(lambda: fn(mk(A) if which == "both" else list(A), mk(B)))
+                    b3.case(("form", fn_name, form, which, tuple(str(q) for q in A), tuple(str(q) for q in B)), nontrivial=False)
+                    same = r[0] == ref[0] and (r[0] != "val" or ([str(q) + q.id + repr(sorted(q.depends_on)) for q in r[1][0]] == [str(q) + q.id + repr(sorted(q.depends_on)) for q in ref[1][0]]
+                                                                 and {k: str(v) for k, v in r[1][1].items()} == {k: str(v) for k, v in ref[1][1].items()}))
+                    if not same:
+                        b3.fail(Failure("disambiguate", f"cause=argument-form function={fn_name} form={form} streams={which} a={[str(q) for q in A]} b={[str(q) for q in B]}",
+                                        dict(kind="disamb-form", function=fn_name, form=form, which=which, a=[str(q) for q in A], b=[str(q) for q in B]),
+                                        expected=outcome.describe(ref)[:150], actual=outcome.describe(r)[:150], functions=[fn_name]))
     b4 = BoundedRun("dot-graph", rule="all acyclic dependency graphs on <= 4 statements (edges i -> j for j < i), in every listing order of the statements, plus chains "
                     "of length 6-8 with every single shortcut edge: the drawn edges are exactly the transitive reduction (independent DFS-based reduction); non-trivial = graph with a redundant edge",
                     bound="2^6 graphs x 24 orders + 60 long chains", functions=["get_dot_dependency_graph"])
